@@ -690,6 +690,25 @@ class Engine:
         return self.assemble(cells, n, t)
 
     def load_sym(self, st, o, p, n, t):
+        # large constant tables (e.g. half.hpp's 2048-entry mantissa table): balanced mux tree over every aligned
+        # entry of the table (the bounds check has already been discharged), no enumeration of feasible offsets
+        if o.kind == "global" and o.size >= 64 * n and t[0] != "ptr" and all(type(c) is int for c in o.data) \
+                and not self.sat(st, z3.URem(p.off, z3.BitVecVal(n, 64)) != 0):
+            offs = list(range(0, o.size - n + 1, n))
+            w = n * 8
+            leaves = [z3.BitVecVal(int.from_bytes(bytes(o.data[c:c + n]), "little"), w) for c in offs]
+
+            def tree(lo, hi):
+                if lo == hi:
+                    return leaves[lo]
+                mid = (lo + hi + 1) // 2
+                return z3.If(z3.ULT(p.off, z3.BitVecVal(offs[mid], 64)), tree(lo, mid - 1), tree(mid, hi))
+            res = tree(0, len(offs) - 1)
+            if t[0] in ("float", "double"):
+                return ("fbits", res)
+            if t[0] == "int" and t[1] != w:
+                res = z3.Extract(t[1] - 1, 0, res)
+            return res
         # ite chain over feasible aligned offsets
         res = None
         offs = self.values(st, p.off, 1030)
